@@ -120,19 +120,10 @@ FLOORS = {
                  "max_skipped_fraction": 0.15},
 }
 
-PENDING = {
-    "read_csv:parse_dates&block-without-data-rows:ValueError@dataframe/io/csv.py:coerce_dtypes":
-        "a block / header-only file / empty written partition that is not the first one makes read_csv(parse_dates=) raise "
-        "'failed to properly parse as dates' (fix proposed in findings_proposed/C47.md)",
-    "read_csv:data-row-starts-with-header-text&blocked:length":
-        "a data row equal to the header line is dropped when a block starts with it (pandas_read_text startswith guard; fix proposed)",
-    "read_csv:data-row-starts-with-header-text&blocked:columns":
-        "same guard: a first row of a block that merely starts with the header text becomes the header of that block",
-    "read_csv:data-row-starts-with-header-text&blocked:KeyError@dataframe/io/csv.py:_read_csv":
-        "same guard with include_path_column: the block's frame has the wrong column name and the column selection raises",
-    "read_csv:all-files-zero-bytes&blocksize-set:ValueError@backends.py:wrapper":
-        "zero-byte files (empty frame written with header=False) + any blocksize -> from_map gets no blocks and raises",
-}
+# All labels that fired on the tree this module was calibrated on have repository fixes
+# (fixes_ready/C47_*.patch, or fixes that entered /repo meanwhile); they are listed under "fixed" in
+# known_findings.d/C47.json.  Nothing is left pending.
+PENDING = {}
 
 _TMP = None
 
